@@ -155,9 +155,12 @@ def run_case(case):
                     bump('completion_orders', '-'.join(map(str, [keys.index(int(o)) for o in order if int(o) in keys])))
                 left = mon.leftovers()
                 bump('processes_started', n=len(mon.procs))
-                if 'hang' in call:
+                hang_effective = mon.virtual_timeouts > 0
+                if 'hang' in call and hang_effective:
                     bump('hung_worker_calls')
                     bump('virtual_join_timeouts', n=mon.virtual_timeouts)
+                elif 'hang' in call:
+                    bump('hang_injection_not_reached')      # hook did not bite: nothing is judged on it
                 if left:
                     viol('history:process-left-behind', script=script, call=tag,
                          leftovers=[{'pid': a, 'role': b, 'key': c} for a, b, c in left], events=mon.events[-20:])
@@ -183,6 +186,8 @@ def run_case(case):
             if got_keys != keys:
                 viol('history:row-key%s' % (':duplicate-texts' if dup else ''), script=script, call=tag,
                      got=got_keys, expected=keys)
+            if 'hang' in call and not (call['multi'] and hang_effective):
+                continue
             for j, i in enumerate(idxs):
                 hung = call.get('hang') == keys[j]
                 if hung:
